@@ -2618,7 +2618,8 @@ func (c *streamableClientConn) processStream(ctx context.Context, requestSummary
 		io.Copy(io.Discard, resp.Body)
 		resp.Body.Close()
 	}()
-	for evt, err := range scanEvents(resp.Body) {
+	body := &eventBoundaryReader{r: resp.Body}
+	for evt, err := range scanEvents(body) {
 		if err != nil {
 			if ctx.Err() != nil {
 				return "", 0, true // don't reconnect: client cancelled
@@ -2632,6 +2633,14 @@ func (c *streamableClientConn) processStream(ctx context.Context, requestSummary
 			}
 
 			break
+		}
+
+		if body.truncated() {
+			// The stream ended in the middle of this event, before the blank line
+			// that dispatches it. Per the SSE specification an incomplete event
+			// is discarded: it must not advance lastEventID (the event will be
+			// replayed after reconnection) nor be decoded as a message.
+			continue
 		}
 
 		if evt.ID != "" {
@@ -2698,6 +2707,55 @@ func (c *streamableClientConn) processStream(ctx context.Context, requestSummary
 		}
 	}
 	return lastEventID, reconnectDelay, false
+}
+
+// eventBoundaryReader wraps an SSE response body and records whether the
+// bytes read so far end on an event boundary (a blank line), and whether the
+// end of the body has been reached.
+//
+// [scanEvents] yields the pending fields as a final event when its input ends
+// without a terminating blank line. processStream uses this reader to tell such
+// a truncated event (the connection dropped mid-event) from a complete one.
+type eventBoundaryReader struct {
+	r          io.Reader
+	n          int64 // bytes read
+	newlines   int   // number of line ends at the end of the bytes read so far
+	eof        bool  // io.EOF has been returned to the caller
+	pendingEOF bool  // the underlying reader returned io.EOF together with data
+}
+
+func (b *eventBoundaryReader) Read(p []byte) (int, error) {
+	if b.pendingEOF {
+		b.eof = true
+		return 0, io.EOF
+	}
+	n, err := b.r.Read(p)
+	for _, c := range p[:n] {
+		switch c {
+		case '\n':
+			b.newlines++
+		case '\r':
+		default:
+			b.newlines = 0
+		}
+	}
+	b.n += int64(n)
+	if err == io.EOF {
+		if n > 0 {
+			// Report the end on the next call, so that eof is only observed once
+			// every complete event in these last bytes has been scanned.
+			b.pendingEOF = true
+			return n, nil
+		}
+		b.eof = true
+	}
+	return n, err
+}
+
+// truncated reports whether the body has ended and did not end with a blank
+// line, so that the event being yielded by scanEvents is incomplete.
+func (b *eventBoundaryReader) truncated() bool {
+	return b.eof && b.n > 0 && b.newlines < 2
 }
 
 // connectSSE handles the logic of connecting a text/event-stream connection.
